@@ -70,7 +70,8 @@ def doc_source(i, st, m, use_xr):
     for kind, k, ver in st['items']:
         lab = 'd%dL%d' % (i, k)
         if kind == 'section':
-            lines.append('\\section{T%dx%dv%d}\\label{%s}' % (i, k, ver, lab))
+            deco = ['', ' caf\\\'e \\textbf{bold}', ' $x^2$ math', ' na\u00efve \u00fc', ' a \\& b'][(k + ver) % 5] if st.get('fancy') else ''
+            lines.append('\\section{T%dx%dv%d%s}\\label{%s}' % (i, k, ver, deco, lab))
             lines.append('Body b%dx%d.' % (i, k))
         else:
             lines.append('Before e%dx%d.' % (i, k))
@@ -109,7 +110,7 @@ def generate(seed, tier):
         items = []
         for k in range(r.randint(1, 4)):
             items.append([r.choice(['section', 'section', 'equation']), k, 0])
-        docs.append({'items': items, 'refs': [], 'next': len(items)})
+        docs.append({'items': items, 'refs': [], 'next': len(items), 'fancy': r.random() < 0.4})
     for i in range(m):
         for j in range(m):
             if j != i:
@@ -381,7 +382,7 @@ class Sim(object):
         self.rends = sw['renderers']
         self.xr = sw.get('xr', False)
         self.root = root
-        self.docs = [dict(items=[list(x) for x in d['items']], refs=[list(x) for x in d['refs']], next=d['next'])
+        self.docs = [dict(items=[list(x) for x in d['items']], refs=[list(x) for x in d['refs']], next=d['next'], fancy=d.get('fancy', False))
                      for d in sw['docs']]
         # model: per file -> {'state': 'clean'|'dirty'|'absent', 'cands': [blocks...], 'fuzzy': bool}
         # blocks = {R: {label: (ref, title, url)}}
@@ -605,13 +606,14 @@ class Sim(object):
         log = out['fs']['log']
         name = 'd%d.paux' % i
         marks = out['fs']['marks']
-        paux = [e for e in log if e[2] == name and e[0] >= marks.get('persist', 0)]
+        paux = [e for e in log if e[2] and name in str(e[2]) and e[0] >= marks.get('persist', 0)]
         render = [e for e in log if marks.get('render', 0) <= e[0] < marks.get('persist', len(log))]
         early = [e for e in log if e[0] < marks.get('render', 0)]
         win = {'paux': paux, 'render': render, 'any': log, 'early': early}.get(plan['window']) or log
         ev = win[plan['k'] % len(win)]
         tear = plan.get('tear', 0)
         self._ckind = ev[1]
+        self._cpath = ev[2]
         self._cwin = 'paux' if ev in paux else ('render' if ev in render else 'early')
         if ev[1] == 'write':
             ln = ev[3] or 0
@@ -635,7 +637,7 @@ class Sim(object):
         if kind == 'open-r':
             self.info['crash_in_readback'] = 1
             return
-        if kind == 'remove':
+        if kind == 'remove' and self._cpath == name:
             return
         if kind == 'open-w':
             self.info['crash_between_truncate_and_write'] = 1
@@ -648,6 +650,11 @@ class Sim(object):
                 fm.update(state='dirty', cands=[new, {}])
         elif kind == 'close':
             fm.update(state='dirty', cands=[new, {}])
+        else:
+            # an event kind the shipped code does not produce here (rename, mkdir, copy ...): whatever protocol
+            # the save uses, after a crash the file may hold the old content, the new content or nothing loadable
+            old = [dict(c) for c in fm['cands']]
+            fm.update(state='dirty', cands=old + [new, {}])
 
     def expected_new(self, name, R, out):
         fm = self.files[name]
